@@ -55,7 +55,7 @@ class Slice:
         self.wrappers = set(wrappers)
         self.flags = {}
         self.ast_env = {}  # local names assigned from non-arithmetic code -> that code (so that an input is recognised through helper variables)
-        self.opaque_canon = {self.canon(ast.parse(k, mode='eval').body): v for k, v in self.opaque.items()}
+        self.opaque_canon = {self.canon(ast.parse(k, mode='eval').body, depth=0): v for k, v in self.opaque.items()}
 
     REDUCTIONS = {'sum', 'mean', 'min', 'max', 'std', 'prod'}
 
@@ -91,7 +91,8 @@ class Slice:
         src = ast.unparse(node)
         p = self.opaque.get(src)
         if p is None and not isinstance(node, ast.Constant):
-            p = self.opaque_canon.get(self.canon(node))
+            # first with the helper variables left as they are, then with them replaced by what they stand for
+            p = self.opaque_canon.get(self.canon(node, depth=0)) or self.opaque_canon.get(self.canon(node))
         if p is not None:
             if p not in self.params:
                 raise Untranslatable(f'input {p} not declared')
